@@ -12,7 +12,8 @@ CASE_T = "C13.Corr.case"
 PROPS = ["C13/Props.v"]
 KIND = {0: "Python", 1: "Any", 2: "Disallow", 3: "ReadOnly", 4: "Constant", 5: "Event", 6: "Typed",
         7: "dunder", 8: "no-rule", 9: "add-remove"}
-WHAT = {1: "outcome-class", 2: "value-read", 3: "stored-afterwards"}
+WHAT = {1: "outcome-class", 2: "value-read", 3: "stored-afterwards",
+        9: "outcome not that of the trait found along the MRO (the code merges direct bases depth-first)"}
 NROOTS = 3
 
 ALPHA = "_ab"
@@ -22,8 +23,8 @@ ALL_NAMES = NAMES + DUNDERS
 EXPLICIT = [n for n in NAMES if not n.endswith("_") and len(n) <= 3]
 PREFIXES = ["", "_", "a", "b", "ab", "_a", "a_", "__", "aa", "abb", "_ab", "a_b", "ba"]
 POLS = [["Python"], ["Any", 5], ["Any", 200], ["Disallow"], ["ReadOnly"], ["Constant", 3], ["Constant", 104],
-        ["Event"], ["Typed", "VInt", 7], ["Typed", "VStr", 102]]
-VALUES = [0, 1, 5, 6, 3, 101, 104, 200]
+        ["Event"], ["Typed", "VInt", 7], ["Typed", "VStr", 102], ["Typed", "VCInt", 8]]
+VALUES = [0, 1, 5, 6, 3, 101, 104, 104, 200, 201]
 
 
 # ----- terms ---------------------------------------------------------------
@@ -72,7 +73,7 @@ def to_term(case, obs):
     h = [(op_term(op), C("mkObs", out_term(ob["out"]), opt(ob["stored"]))) for op, ob in zip(case["ops"], obs)]
     ne = sum(1 for op in case["ops"] if is_early(op))
     return (classes[:len(classes) - nlate], Nat(case.get("precls", case["cls"])), h[:ne],
-            classes[len(classes) - nlate:], Nat(case["cls"]), h[ne:])
+            classes[len(classes) - nlate:], Nat(case["cls"]), h[ne:], [Nat(k) for k in obs[0]["mro"]])
 
 
 # ----- failure signatures ----------------------------------------------------
@@ -101,6 +102,8 @@ def key_fn(case, obs, step, clause):
     if case.get("nlate", 0) > 0 and not is_early(op) and any(
             is_early(e) and e[1] == op[1] and e[0] in ("Get", "Set", "Del") for e in case["ops"]):
         return "class-created-after-use-inherits-cached-wildcard-resolution"
+    if clause == 99:
+        return "trait-inheritance-not-by-mro"
     if op[0] == "Get" and clause in (21, 42, 51) and obs[step]["out"][0] == "Val":
         pol = live_instance_trait(case, step, op[1])
         sb = stored_before(case, obs, step, op[1])
@@ -115,7 +118,8 @@ def describe(case, obs, step, clause):
             "observed %r" % (op[1], case["precls"] if is_early(op) else case["cls"],
                              " (last %d classes created after the early operations on an instance of class %d)" % (
                                  case["nlate"], case["precls"]) if case.get("nlate") else "",
-                             json.dumps(case["classes"]), KIND.get(clause // 10),
+                             json.dumps(case["classes"]),
+                             "(differs between MRO and base order)" if clause == 99 else KIND.get(clause // 10),
                              WHAT.get(clause % 10), step, op, obs[step]))
 
 
@@ -369,9 +373,9 @@ def run(ctx):
             names = rnd.sample(NAMES, 14) + DUNDERS[:1]
             nhist, maxlen, group, nstaged = 250, 12, 5, 150
         else:
-            hiers = fixed + [gen_hierarchy(rnd, ctx) for _ in range(40)]
+            hiers = fixed + [gen_hierarchy(rnd, ctx) for _ in range(60)]
             names = ALL_NAMES
-            nhist, maxlen, group, nstaged = 8000, 30, 6, 4000
+            nhist, maxlen, group, nstaged = 10000, 30, 6, 5000
             ctx.cov["exhaustive"] = True
         cases = corpus() + probe_cases(hiers, names, group, ctx, rnd)
         pool = fixed + [gen_hierarchy(rnd, ctx) for _ in range(60 if ctx.tier == "quick" else 600)]
